@@ -440,30 +440,53 @@ func (f *fixture) cleanup(clients []*cli) {
 	waitFor(150*time.Millisecond, func() bool { return count().starts == 0 })
 }
 
-func unstick(m *sync.Mutex) {
-	for i := 0; i < 200; i++ {
-		if m.TryLock() {
-			m.Unlock()
-			return
-		}
-		time.Sleep(time.Millisecond)
+// lockFree reports whether m can be acquired within the bound.  (TryLock is useless here: the
+// relay goroutines of unconnected sockets take SocksCliMtx in a tight loop, which keeps the
+// mutex in starvation mode where TryLock always fails; a real Lock is served in FIFO order.)
+// The helper goroutine ends as soon as the mutex is released, also after the bound.
+func lockFree(m *sync.Mutex, bound time.Duration) (bool, chan struct{}) {
+	done := make(chan struct{})
+	go func() { m.Lock(); m.Unlock(); close(done) }()
+	select {
+	case <-done:
+		return true, done
+	case <-time.After(bound):
+		return false, done
 	}
-	// held for 200 ms with nobody running a command: a command returned (or panicked) with it locked
+}
+
+// unstick releases a mutex that a command left locked when it panicked or returned.  Only
+// called when no command is running, so nobody can be holding it legitimately for longer
+// than the few instructions of a table walk.
+func unstick(m *sync.Mutex) { unstickWithin(m, 2*time.Second) }
+
+// unstickNow: right after a command panicked on this goroutine (whatever it held stays held).
+func unstickNow(m *sync.Mutex) { unstickWithin(m, 300*time.Millisecond) }
+
+func unstickWithin(m *sync.Mutex, bound time.Duration) {
+	free, done := lockFree(m, bound)
+	if free {
+		return
+	}
 	func() {
 		defer func() { recover() }()
 		m.Unlock()
 	}()
+	<-done
 }
 
+// locked: the mutex is still held 10 s after the command returned.
 func locked(m *sync.Mutex) bool {
-	ok := waitFor(2*time.Second, func() bool {
-		if m.TryLock() {
-			m.Unlock()
-			return true
-		}
+	free, done := lockFree(m, 10*time.Second)
+	if free {
 		return false
-	})
-	return !ok
+	}
+	func() {
+		defer func() { recover() }()
+		m.Unlock()
+	}()
+	<-done
+	return true
 }
 
 // socketIDs returns the ids in a.SocksCli (as unsigned), read under the table's own mutex.
